@@ -136,3 +136,56 @@ Proof.
   destruct (existsb (N.eqb slash) cmd) eqn:E; [exfalso; apply H; apply existsb_eqb_In; exact E|].
   destruct p; [congruence|]. unfold candidates. rewrite split_path_spec. reflexivity.
 Qed.
+
+(* ---------- the lookup loop ---------- *)
+
+Fixpoint first_startable (fs : str -> option N) (cands : list str) : option (list str * str) :=
+  match cands with
+  | [] => None
+  | c :: r => match fs c with
+              | None => Some ([], c)
+              | Some _ => match first_startable fs r with
+                          | Some (skipped, x) => Some (c :: skipped, x)
+                          | None => None
+                          end
+              end
+  end.
+
+(* the calls issued are exactly the candidates up to and including the first startable one, in PATH order;
+   that one is the image that runs; if there is none all were tried and an error comes back *)
+Theorem lookup_first_startable fs cands e0 :
+  match first_startable fs cands with
+  | Some (skipped, x) => exec_loop fs cands e0 = (skipped ++ [x], inl x)
+                         /\ Forall (fun c => fs c <> None) skipped /\ fs x = None
+                         /\ exists rest, cands = skipped ++ x :: rest
+  | None => fst (exec_loop fs cands e0) = cands /\ Forall (fun c => fs c <> None) cands
+            /\ exists e, snd (exec_loop fs cands e0) = inr e
+               /\ (cands = [] -> e = e0) /\ (cands <> [] -> fs (last cands []) = Some e)
+  end.
+Proof.
+  revert e0. induction cands as [|c r IH]; intros e0.
+  - cbn. repeat split; auto. exists e0. repeat split; auto. congruence.
+  - cbn [first_startable exec_loop]. destruct (fs c) as [e|] eqn:F.
+    + specialize (IH e). destruct (first_startable fs r) as [[skipped x]|].
+      * destruct IH as [H1 [H2 [H3 [rest H4]]]]. rewrite H1. cbn [app]. repeat split; auto.
+        -- constructor; [congruence|exact H2].
+        -- exists rest. rewrite H4. reflexivity.
+      * destruct IH as [H1 [H2 [e' [H3 [H4 H5]]]]].
+        destruct (exec_loop fs r e) as [tried res] eqn:E. cbn [fst snd] in *. subst tried. repeat split.
+        -- constructor; [congruence|exact H2].
+        -- exists e'. split; [exact H3|]. split; [discriminate|]. intros _.
+           destruct r as [|c2 r2]; [cbn; rewrite (H4 eq_refl); exact F|].
+           change (last (c :: c2 :: r2) []) with (last (c2 :: r2) []). apply H5. discriminate.
+    + repeat split; auto. exists r. reflexivity.
+Qed.
+
+(* a launch never "succeeds" without an image: the loop returns inl only for a candidate that started *)
+Corollary lookup_failure_is_error fs cmd pe :
+  (forall c, In c (candidates cmd (search_path_of cmd pe)) -> fs c <> None) ->
+  exists e, snd (lookup_and_exec fs cmd pe) = inr e.
+Proof.
+  intros H. unfold lookup_and_exec. pose proof (lookup_first_startable fs (candidates cmd (search_path_of cmd pe)) ENOENT) as L.
+  destruct (first_startable fs _) as [[skipped x]|].
+  - destruct L as [_ [_ [Hx [rest Hc]]]]. exfalso. apply (H x); [rewrite Hc; apply in_or_app; right; left; reflexivity|exact Hx].
+  - destruct L as [_ [_ [e [He _]]]]. exists e. exact He.
+Qed.
